@@ -42,4 +42,6 @@ with ThreadPoolExecutor(4) as ex:
         pid = name.split("-")[0]
         own = res.get(pid, {})
         caught = [c for c, r in res.items() if isinstance(r, dict) and r.get("exit") == 1]
+        if "error" in res:
+            print(f"{name:8s} ERROR {res['error'][:150]}"); continue
         print(f"{name:8s} own={own.get('exit', '-')!s:3s} caught_by={caught} {'; '.join(own.get('lines', [])[:1])[:120] if isinstance(own, dict) else res}")
